@@ -302,6 +302,24 @@ theorem cs_residual (A B : Matrix n n K) (a b ν lam lam' : K) (x y r : n → K)
   exact cs_residual_core (A - a • (1 : Matrix n n K)) b ν (lam - a) (lam' - a) x y r hν hB hy
     (cs_sum a b lam lam' ν hq hp hl) hp
 
+/-- the code's quadratic has REAL coefficients: if `conj` is a ring endomorphism fixing `a` and `b` (complex conjugation on a field
+    containing the reals) then `λ` is a root for `ν` iff... in particular `conj λ` is a root for `conj ν`.  This is why the slot that
+    holds the conjugate Ritz value `conj ν` may be given `conj λ` (repair of F14: the pair test is made on `ν`). -/
+theorem cs_conj (conj : K →+* K) (a b lam ν : K) (ha : conj a = a) (hb : conj b = b)
+    (hq : ν * ((lam - a) ^ 2 + b ^ 2) = lam - a) :
+    conj ν * ((conj lam - a) ^ 2 + b ^ 2) = conj lam - a := by
+  have h := congrArg conj hq
+  simpa [map_mul, map_add, map_sub, map_pow, ha, hb] using h
+
+/-- a fixed point of the conjugation (a REAL transformed value) with a conjugation-fixed root: nothing forces the next slot to be
+    related — and a real `ν` whose roots are NOT fixed (negative discriminant) has both roots `λ`, `conj λ` for the SAME `ν`: the
+    partner of `λ` is the other root of the same slot, not the next slot -/
+theorem cs_conj_real (conj : K →+* K) (a b lam ν : K) (ha : conj a = a) (hb : conj b = b) (hν : conj ν = ν)
+    (hq : ν * ((lam - a) ^ 2 + b ^ 2) = lam - a) :
+    ν * ((conj lam - a) ^ 2 + b ^ 2) = conj lam - a := by
+  have h := cs_conj conj a b lam ν ha hb hq
+  rwa [hν] at h
+
 end quadratic
 
 section ordered
